@@ -16,6 +16,20 @@ CHECKS = {
         "up to 400 nodes crossing 64-bit bucket boundaries; the same workload runs against an ASan+UBSan build. Held on what was explored, not a proof.",
         "Trusts the harness BFS as the definition of reachability and pybind11's marshalling; sanitizer covers only typegraph C++ code reached.",
         "C09"),
+    "C07": (
+        "differential runtime oracle: declarative explaining-path reference evaluated on the graph read back from the live Program; exhaustive tiny graphs + random + live VM graphs; ASan+UBSan repeat",
+        "HasCombination/IsVisible/Filter/Bindings/CanHaveCombination are compared, for every node and every binding subset of size<=3, with a cache-free "
+        "reference of the property's own definition: exact equality on acyclic condition-free graphs (n=2 complete, n=3 enumerated slice, random DAGs), "
+        "explained=>accepted on acyclic graphs with conditions, and the reachability / subset / CanHave laws on all graphs including live typegraphs of real "
+        "VM analyses. One listed known finding (cycles through conditional nodes). Held on what was explored.",
+        "Trusts the harness reference model (vf/oracle/tg.py) as the meaning of the property and the public graph attributes as a faithful export.",
+        "C07"),
+    "C08": (
+        "history monitor with executable model: every query on a long-lived Program is compared with a replica rebuilt from the recorded op log (and re-asked); solver-instance counter attributes stale answers to a mutator; ASan+UBSan repeat",
+        "Thousands of short random histories over every public mutator and query, biased to query->mutation->same-query, each query checked against a from-scratch "
+        "replica; found and led to three fix: commits (source-set pointer ordering, AddOrigin(SourceSet) and set_condition not invalidating the solver). Sampled histories, not all.",
+        "Trusts that replaying the mutating ops reproduces 'a freshly built copy'; pybind wrappers are part of the system under test.",
+        "C08"),
 }
 
 PENDING_REASON = "check not built yet in this round (planned: see DESIGN.md section for this property)"
